@@ -523,7 +523,7 @@ class CSSParser:
                 # Equivalent to `:not([attr=value])`
                 inverse = True
         if is_type and pattern:
-            pattern2 = re.compile(pattern.pattern)
+            pattern2 = re.compile(pattern.pattern, re.DOTALL)
 
         # Append the attribute selector
         sel_attr = ct.SelectorAttribute(attr, ns, pattern, pattern2)
